@@ -21,12 +21,11 @@ package redact
 //
 // The verbs T, p and w are excluded everywhere (the statement excludes them: fmt does not dispatch them).
 //
-// KNOWN CORNER (reported, inputs skipped, see c14Dir.width0): a width of 0 can only be given through '*'
-// ("%*d" with operand 0). The state then is "width present, 0"; MakeFormat renders it as "%0d", which fmt
-// parses as the FLAG '0' and no width. No format string can denote that state, so the token-level law L1
-// cannot hold there; the outputs of fmt for the basic kinds are nevertheless equal (checked), only an
-// operand that is itself a Formatter inspecting its fmt.State sees the difference (those operands are
-// skipped on that corner).
+// CORNER (see c14Dir.width0): a width of 0 can only be given through '*' ("%*d" with operand 0). The state then
+// is "width present, 0", which no format string can denote; a width of 0 pads nothing, so leaving the width out
+// is accepted there, but every flag must be re-created exactly (finding F6, fixed in /repo: MakeFormat used to
+// render it as "%0d", which fmt parses as the FLAG '0'). An operand that is itself a Formatter printing its
+// fmt.State still sees "width absent" instead of "width 0"; those operands are skipped on that corner.
 
 import (
 	"encoding/json"
@@ -412,9 +411,13 @@ func (r *c14Run) checkFormat(call string, rec *c14Rec, d c14Dir) bool {
 		return false
 	}
 	if st.WidOK && st.Wid == 0 {
-		// KNOWN CORNER (see the head of the file), skipped for the exact comparison: "width present and 0"
-		// is rendered as the flag '0'. Everything but the width and the '0' flag must still be re-created.
-		got.Zero, got.WidOK, got.Wid = st.Zero, st.WidOK, st.Wid
+		// CORNER (see the head of the file): no format string denotes "width present and 0". A width of 0 pads
+		// nothing, exactly like an absent width, so the rebuilt directive may leave the width out; but it must
+		// not turn it into something else: in particular the flags, the '0' flag included, must be re-created
+		// exactly (finding F6: "%*d" with 0 was rebuilt as "%0d", which sets the zero-padding flag).
+		if !got.WidOK || got.Wid == 0 {
+			got.WidOK, got.Wid = st.WidOK, st.Wid
+		}
 	}
 	if got != st {
 		r.bad(call, rec.format, "MakeFormat returned a format denoting "+got.String()+" but the active directive is "+st.String())
